@@ -133,7 +133,7 @@ RULE_STATIC = (
     'N*(1+14+14^2+14^3+14^4) calls (arity 4 in 14 shards of 14^3), + 3000 x scale more arity-4 tuples per modelled name for the model; arguments outside the pool are '
     'not part of this stream; a callFunction listener counts the dispatches of the name: a fn shard without violation whose '
     'number of dispatches differs from its number of calls is a '
-    'harness error; fn-edge (a strings case per name) = every name on numeric edges written as literals: 25 numbers (incl. 2^53+1 and its negative; +-0.5, '
+    'harness error; fn-edge (a strings case per name) = every name on numeric edges written as literals: 29 numbers (incl. 2^53+1 and its negative, and the float twins 10^15/1, -(10^15/1), 2^70/1, 10^300/1 of huge whole numbers; +-0.5, '
     '+-10^-9, 0, -0, +-1, +-1.5, 2, 36, 37, +-255, +-10^15, +-10^300, 2^53, +-(2^53+1), 0.1, 0.25, -2.5) alone and in all 25^2 pairs, 7 numeric '
     'texts at the edges of float() ("1e400", "nan", "inf", "1e-400", REPT("9",400), ...) alone and paired both ways with 6 '
     'small numbers, 40 (600) x scale seeded triples (at most all 13^3) over 13 of the numbers (the first 12 and 10^15): 781 '
@@ -1609,7 +1609,10 @@ def cases(rng, ctx):
     # huge magnitudes, radix and table bounds (the loops of function bodies are bounded by argument validation: this is
     # where a guard that truncates, floors or compares on the wrong side of zero stops guarding)
     edges = ['-0.5', '0.5', '-0.000000001', '0.000000001', '0', '-0', '1', '-1', '1.5', '-1.5', '2', '36', '37', '255', '-255',
-             '10^15', '-10^15', '1*10^300', '-1*10^300', '2^53', '0.1', '-2.5', '2^53+1', '-(2^53+1)', '0.25']
+             '10^15', '-10^15', '1*10^300', '-1*10^300', '2^53', '0.1', '-2.5', '2^53+1', '-(2^53+1)', '0.25',
+             # the same huge whole numbers arriving as FLOATS (the result of a division): a guard that looks at ints only
+             # must not be followed by a conversion to int
+             '10^15/1', '-(10^15/1)', '2^70/1', '1*10^300/1']
     for name in names:
         items = ['%s(%s)' % (name, a) for a in edges]
         items += ['%s(%s,%s)' % (name, a, b) for a in edges for b in edges]
